@@ -347,8 +347,9 @@ def scn_history(ctx):
     memo = Memo(m)
     n_ops = 5 + ch.draw(28 if not big else 10, "n_ops")
     cheap = ("geom", "tau_exit_prob", "tau_energy_u", "tau_energy_const", "taus_call", "altDec", "geom_call_seeded", "spec", "cdf_utils")
-    allst = cheap + ("too", "radio", "eas", "eas", "too", "radio", "altDec_seeded", "taus_call_seeded", "radio_seeded", "mcint", "mcint_too", "eas", "construct", "cdf_utils")
+    allst = cheap + ("too", "radio", "eas", "eas", "too", "radio", "altDec_seeded", "taus_call_seeded", "radio_seeded", "mcint", "mcint_too", "eas", "construct", "cdf_utils", "edit_config")
     last_throw = {}
+    epoch = {"radio": 0}
     stages = cheap if big else allst
     maxlen = 20001 if big else 48
     ctx.describe.update(pool=m, n_ops=n_ops, config=cdesc)
@@ -382,6 +383,18 @@ def scn_history(ctx):
             ctx.steps += 1
             L = lambda a, lab="layout": histsim.layout(ch, a, lab)  # noqa: E731
 
+            if st == "edit_config":
+                # the (mutable) configuration the long-lived objects point to is edited between calls:
+                # from here on they must answer as a fresh object built from the edited configuration does
+                r_ = cfg.detector.radio
+                band = ((30.0, 300.0), (30.0, 80.0), (300.0, 1000.0), (200.0, 1200.0))[ch.draw(4, "band")]
+                r_.low_frequency, r_.high_frequency = band
+                cfg.simulation.ionosphere.total_electron_content = (10.0, 1.0, 50.0, 100.0)[ch.draw(4, "tec")]
+                cfg.simulation.ionosphere.total_electron_error = (0.1, 5.0, 0.0)[ch.draw(3, "tecerr")]
+                epoch["radio"] += 1
+                ctx.probes["configuration_edited_between_calls"] += 1
+                ctx.log(f"op{opi} edit_config band={band}")
+                continue
             if st == "cdf_utils":
                 # the public samplers of utils.cdf are built from the long-lived Taus object's own
                 # CDF table (at a table node or off it) and used: the table belongs to the object
@@ -667,7 +680,7 @@ def scn_history(ctx):
                         out = _guard_args(ctx, "EASRadio.__call__", opi, args, lambda: ra(*args), lambda: EASRadio(cfg)(*[np.array(a) for a in args]))
                     if out is _FAILED:
                         continue
-                    memo.observe(ctx, "EASRadio.__call__", "const", idx, [out], opi, n)
+                    memo.observe(ctx, "EASRadio.__call__", f"const/config-epoch-{epoch['radio']}", idx, [out], opi, n)
                 else:
                     s = ch.draw(1000, "seed")
                     np.random.seed(s)
